@@ -4,9 +4,10 @@ import vf
 
 PROP = "C19"
 THEOREMS = ["new_canonical", "new_idempotent", "canonical_classes", "canonical_fixed_points", "ops_closed",
-            "sin_odd_any_rounding", "cos_even", "sin_odd", "codec_canonicalize_agrees", "sin_table_facts",
+            "sin_odd_any_rounding", "cos_even", "sin_odd", "new_matches_adder", "codec_canonicalize_agrees", "sin_table_facts",
             "q32_total", "q32_saturates", "q32_mul_nearest", "q32_div_nearest",
-            "prng_next_int_range", "prng_never_zero_state"]
+            "prng_next_int_range", "prng_never_zero_state", "from_axis_angle_total_refuted",
+            "sin_cos_range", "sin_cos_is_signed_interp", "sin_interp_segment_range"]
 PRE = ("From Coq Require Import List NArith ZArith.\n"
        "From Echo Require Import Model.TrigTable Model.Scalar.\n"
        "Import ListNotations.\nOpen Scope N_scope.\n"
@@ -484,11 +485,15 @@ def run(tier, seed, replay=None):
     r.cov["trusted_base"] = ["coqc 8.16.1 kernel + vm_compute", "Flocq 4.1.0 (IEEE754.Binary/Bits) as the meaning of f32 arithmetic",
                              "python generator/renderer props/c19.py", "translator/gen_trig_table.py",
                              "harness c19.rs (reference oracles: field-level new, f64-exact Q32.32, hardware sqrt)", "blake3 crate"]
+    tm = {}
+    t0 = time.time()
     table_ok = check_table(r)
     ok = r.proof_phase(THEOREMS)
+    tm["proof_s"] = round(time.time() - t0, 1); t0 = time.time()
     try:
         bins = {"debug": vf.cargo_build(["c19"])["c19"], "release": vf.cargo_build(["c19"], release=True)["c19"]}
         r.phase("P3_build", ok=True, profiles=["debug", "release"], lanes=["det_float (F32Scalar)", "det_fixed (DFix64)"])
+        tm["build_s"] = round(time.time() - t0, 1); t0 = time.time()
     except (vf.Broken, subprocess.TimeoutExpired) as e:
         r.is_broken("harness-build", e)
         return r.finish()
@@ -524,6 +529,7 @@ def run(tier, seed, replay=None):
         r.is_broken("correspondence-run", e)
         return r.finish()
     r.phase("P4_correspondence", cases=len(cases), corpus=len(corpus), differing=stats["differing"], profiles=2)
+    tm["ops_s"] = round(time.time() - t0, 1); t0 = time.time()
 
     # ---- (b) fixed input stream through every family, both profiles
     n_stream = 40000 if tier == "quick" else 1500000
@@ -541,6 +547,7 @@ def run(tier, seed, replay=None):
     except (vf.Broken, subprocess.TimeoutExpired) as e:
         r.is_broken("stream-run", e)
 
+    tm["stream_s"] = round(time.time() - t0, 1); t0 = time.time()
     # ---- (c) sweeps of the unary functions
     sweeps = []
     off = r.rng.randrange(61)
@@ -565,6 +572,8 @@ def run(tier, seed, replay=None):
         except (vf.Broken, subprocess.TimeoutExpired) as e:
             r.is_broken("sweep-run", e)
     r.phase("P5c_sweeps", sweeps=sweep_info)
+    tm["sweeps_s"] = round(time.time() - t0, 1); t0 = time.time()
+    r.cov["phase_wall_s"] = tm
 
     # ---- P6: if a proof / the table / the correspondence broke and nothing concrete failed, search harder on the oracles
     if r.broken and not r.violations:
@@ -616,3 +625,36 @@ def run(tier, seed, replay=None):
     r.cov["samples"] = [cases[len(corpus)], cases[len(cases) // 2], cases[-1], sline]
     r.phase("P5_oracle", failing=stats["oracle_failing"])
     return r.finish()
+
+
+MANIFEST = {
+    "category": "proof",
+    "text": ("Coq theorems over an executable model of warp-math (f32 as its 32-bit pattern): F32Scalar::new maps every pattern into the "
+             "canonical set {+0, normals, +-inf, 0x7fc00000}, is idempotent, and every scalar operation (+ - * / neg sin cos) is `new` of a "
+             "32-bit pattern, hence canonical, for ANY float primitives (closed proofs, no axioms); sine is exactly odd and cosine exactly even "
+             "at the F32Scalar level for any rounding behaviour because only sign-bit algebra is used; Q32.32 conversion is total into i64, "
+             "DFix64 add/sub/neg are the exact result clamped (no wrap) and mul/div are the nearest value unless saturated; xoroshiro128+ "
+             "never reaches the zero state and next_int stays in range. Range: for every 32-bit pattern |sin| and |cos| are at most 1.0 "
+             "under IEEE binary32 round-to-nearest-even (Flocq): every component is a signed quarter-wave interpolation value, interpolation "
+             "on every segment of the checked-in table (regenerated from trig_lut.rs and compared on every run; finite check of all 1024 "
+             "segments lifted by forallb_forall) stays in [0,1] for every fraction in [0,1] by monotone rounding, the index/fraction side "
+             "conditions hold, and float order agrees with bit order on [0,1]. "
+             "Tie: the model instantiated with Flocq binary32 and the real crates (both the debug and the release build "
+             "of the same harness, both scalar lanes det_float and det_fixed) run the same stratified single-op cases over scalar, trig, "
+             "fixed, codec, PRNG, vec3, quat and mat4 functions and are compared bit for bit; a fixed input stream and sweeps of the unary "
+             "functions (quick: every 61st pattern + all exponents x 64 mantissa tails; thorough: all 2^32 patterns) go through both builds "
+             "with independent reference oracles (canonical result, sin odd / cos even, range, f64-exact Q32.32, hardware sqrt) and per-family "
+             "blake3 digests of all output bits must be equal across the two builds."),
+    "note": ("Bit-stability across optimisation levels and platforms is a property of rustc/LLVM/the FPU, not of a model: the debug-vs-release "
+             "digests and the exhaustive sweeps are DIFFERENTIAL EVIDENCE on this x86_64 machine (exploration), not proof; other targets are not "
+             "exercised. Trusted: Coq 8.16.1 kernel + vm_compute; Flocq 4.1.0 as the meaning of f32 arithmetic (theorems that mention the binary32 "
+             "instance inherit its four classical axioms: ClassicalDedekindReals.sig_not_dec, ClassicalDedekindReals.sig_forall_dec, "
+             "FunctionalExtensionality.functional_extensionality_dep, Classical_Prop.classic; the bit-pattern, closure, symmetry, Q32.32 and PRNG "
+             "theorems are closed under the global context); props/c19.py, translator/gen_trig_table.py, harness c19.rs, blake3. Modelled rather "
+             "than verified: scalar.rs, trig.rs, vec3.rs, quat.rs, mat4.rs, fixed_q32_32.rs, prng.rs, lib.rs(det_sqrt_f32, libm::sqrtf taken as "
+             "correctly rounded), codec.rs canonicalize_f32/fx_from_f32/fx_from_i64 as Gallina functions; `x % TAU` as the exact remainder. "
+             "Release semantics are modelled; the debug-only tripwires (debug_assert on non-finite angles and in Quat::new), which the crate "
+             "documents, are treated as out of domain. Known finding (theorem from_axis_angle_total_refuted): Quat::from_axis_angle on a finite "
+             "axis whose squared length overflows yields NaN (release) / panics (debug). Informational: NaN payloads propagated through raw Vec3 "
+             "operations (out of the documented finite domain) differ between debug and release."),
+}
